@@ -41,10 +41,10 @@ func TestMain(m *testing.M) { fw.Main(m) }
 const (
 	avoidKnownDoubleUnaryMinus      = false // SELECT - -1       prints "--1" (a line comment)        roundtrip_reparse_fails:UnaryArithmetic
 	avoidKnownBangBeforeOperator    = false // SELECT ! !a       prints "!!a"; ! :p prints "!:p"      roundtrip_string_differs:UnaryLogic / roundtrip_reparse_fails:UnaryLogic
-	avoidKnownPositionalPlaceholder = true // SELECT ?          prints "?{1}"                        roundtrip_reparse_fails:Placeholder
-	avoidKnownIgnoreNulls           = true // FIRST_VALUE(a) IGNORE NULLS OVER () prints the keywords inside the parentheses   roundtrip_reparse_fails:AnalyticFunction:ignore_nulls
-	avoidKnownUrlBeforePunctuation  = true // FROM file:./a.csv , t  prints "file:./a.csv, t": the URL token swallows ',' or ')'    roundtrip_reparse_fails:Url
-	avoidKnownQuotedFunctionName    = true // `my fn`(1)        prints MY FN(1)                      roundtrip_reparse_fails:Function:quoted_name (also AggregateFunction, ListFunction, AnalyticFunction)
+	avoidKnownPositionalPlaceholder = true  // SELECT ?          prints "?{1}"                        roundtrip_reparse_fails:Placeholder
+	avoidKnownIgnoreNulls           = true  // FIRST_VALUE(a) IGNORE NULLS OVER () prints the keywords inside the parentheses   roundtrip_reparse_fails:AnalyticFunction:ignore_nulls
+	avoidKnownUrlBeforePunctuation  = true  // FROM file:./a.csv , t  prints "file:./a.csv, t": the URL token swallows ',' or ')'    roundtrip_reparse_fails:Url
+	avoidKnownQuotedFunctionName    = true  // `my fn`(1)        prints MY FN(1)                      roundtrip_reparse_fails:Function:quoted_name (also AggregateFunction, ListFunction, AnalyticFunction)
 )
 
 // toleratedSigs lists the signatures of the shapes above (only consulted where
@@ -284,7 +284,15 @@ func evalSafe(toks []parser.Token) bool {
 		case parser.URL, parser.STDIN, parser.EXTERNAL_COMMAND, parser.Uncategorized:
 			return false
 		case parser.TABLE_FUNCTION:
-			if !strings.EqualFold(tk.Literal, "DATA") {
+			switch strings.ToUpper(tk.Literal) {
+			case "DATA":
+			case "FILE", "INLINE":
+				// only FILE::('name') with a literal name that stays inside the fixture directory
+				if !(i+3 < len(toks) && toks[i+1].Token == '(' && toks[i+2].Token == parser.STRING && toks[i+3].Token == ')') ||
+					strings.ContainsAny(toks[i+2].Literal, "/\\") || strings.Contains(toks[i+2].Literal, "..") {
+					return false
+				}
+			default:
 				return false
 			}
 		case parser.RUNTIME_INFORMATION:
@@ -335,6 +343,9 @@ func fixtureDir() string {
 		if err := run.WriteFiles(fixDir, fixtureFiles); err != nil {
 			panic(err)
 		}
+		if err := run.WriteFiles(fixDir, formatFixtureFiles); err != nil {
+			panic(err)
+		}
 	})
 	return fixDir
 }
@@ -355,6 +366,7 @@ func replaceValues() *query.ReplaceValues {
 
 type evalRes struct {
 	views   []run.Tbl
+	vars    string // values of @v1, @v2, @v3 after the statement(s): the side effects of INTO and @v := ...
 	errCls  string
 	errMsg  string
 	skipped string // non-empty: evaluation not usable (setup failure, time limit)
@@ -365,17 +377,17 @@ func (r evalRes) String() string {
 		return "skipped: " + r.skipped
 	}
 	if r.errCls != "" {
-		return "error " + r.errCls + " (" + r.errMsg + ")"
+		return "error " + r.errCls + " (" + r.errMsg + ") vars=" + r.vars
 	}
 	var b strings.Builder
 	for _, v := range r.views {
 		b.WriteString(clipq(v.String()))
 	}
-	return b.String()
+	return b.String() + " vars=" + r.vars
 }
 
 func sameEval(a, b evalRes) bool {
-	if a.errCls != b.errCls || len(a.views) != len(b.views) {
+	if a.errCls != b.errCls || len(a.views) != len(b.views) || a.vars != b.vars {
 		return false
 	}
 	if a.errCls != "" {
@@ -425,10 +437,28 @@ func evalText(text string, prep, ansi bool) (res evalRes) {
 	if ctx.Err() != nil {
 		return evalRes{skipped: "time limit"}
 	}
-	if r.Err != nil {
-		return evalRes{errCls: run.ErrClass(r.Err), errMsg: r.Err.Error()}
+	vars := probeVars(s)
+	if ctx.Err() != nil {
+		return evalRes{skipped: "time limit"}
 	}
-	return evalRes{views: r.Views}
+	if r.Err != nil {
+		return evalRes{errCls: run.ErrClass(r.Err), errMsg: r.Err.Error(), vars: vars}
+	}
+	return evalRes{views: r.Views, vars: vars}
+}
+
+// probeVars reads the fixture variables after the evaluated text, so that what
+// SELECT ... INTO and (@v := expr) leave behind is part of "evaluates identically".
+func probeVars(s *run.Sess) string {
+	pr := s.Exec("SELECT @v1, @v2, @v3") // (every Execute starts a new list of result views)
+	if pr.Err != nil || len(pr.Views) != 1 {
+		return "probe failed: " + fmt.Sprint(pr.Err)
+	}
+	v := pr.Views[len(pr.Views)-1]
+	if len(v.Rows) != 1 {
+		return "probe failed: rows"
+	}
+	return fmt.Sprint(v.Rows[0])
 }
 
 // ---------------------------------------------------------------------
@@ -959,6 +989,12 @@ func checkRoundTrip(c rtCase) (fw.Outcome, *fw.Violation) {
 		return o, v
 	}
 	o.Classes = append(o.Classes, cl, fmt.Sprintf("mode:prepared=%v,ansi=%v", c.Prepared, c.Ansi))
+	for _, f := range c.Feats {
+		// how the new table kinds and the INTO clause are actually evaluated
+		if strings.HasPrefix(f, "table_format:") || f == "into_clause" || f == "stdin_qualifier" {
+			o.Classes = append(o.Classes, f+"/"+cl)
+		}
+	}
 	ti := analyse(scanTokens(c.Sql, c.Prepared, c.Ansi))
 	if ti.escaped {
 		o.Classes = append(o.Classes, "has_escape")
@@ -981,9 +1017,9 @@ func TestC18RoundTrip(t *testing.T) {
 	fw.Run(t, fw.Spec[rtCase]{
 		ID: "C18", Name: "roundtrip", Quick: 20000, Thorough: 400000,
 		Gen: genRTCase, Check: checkRoundTrip,
-		Rule: "SELECT queries rendered from a grammar (all literal kinds with every escape spelling, quoted identifiers with special characters, arithmetic/comparison/logic, CASE, BETWEEN, IN, LIKE, IS, ANY/ALL, EXISTS, row values, JSON_ROW, functions, aggregate/list/analytic functions with OVER and frames, subqueries, all join kinds, LATERAL, CTEs, set operators, ORDER BY/LIMIT/OFFSET/FETCH, table objects, cursor status, variables, flags, constants, named placeholders in prepared mode; random keyword case, white space and comments). Oracle: s1=String() parses to one SELECT printing s1 again; the original text and s1, each parsed afresh and executed in a new session over fixed tables, give equal headers and values or the same error class. non-trivial = has a string/quoted identifier needing an escape or parenthesis depth >= 3; distinct by the first 14 token kinds, escape flag, depth bucket, mode, evaluation class",
+		Rule: "SELECT queries rendered from a grammar (all literal kinds with every escape spelling, quoted identifiers with special characters, arithmetic/comparison/logic, CASE, BETWEEN, IN, LIKE, IS, ANY/ALL, EXISTS, row values, JSON_ROW, functions, aggregate/list/analytic functions with OVER and frames, subqueries, all join kinds, LATERAL, CTEs, set operators, ORDER BY/LIMIT/OFFSET/FETCH, cursor status, variables, flags, constants, named placeholders in prepared mode; table objects of all five file formats CSV/FIXED/LTSV/JSON/JSONL over fixture files and the three inline formats CSV_INLINE/JSON_INLINE/JSON_TABLE in every grammar alternative (with and without format element, optional encoding/no_header/without_null arguments, path as identifier, FILE::/INLINE::/DATA::/URL:: table function or STDIN); STDIN.column and STDIN.n references; the keywords the grammar accepts as identifiers (TIES NULLS ROWS CSV JSON JSONL FIXED LTSV) bare and quoted; SELECT ... INTO variables on the outermost query; random keyword case, white space and comments). Oracle: s1=String() parses to one SELECT printing s1 again; the original text and s1, each parsed afresh and executed in a new session over fixed tables, give equal headers and values, leave equal values in the variables @v1-@v3 (side effects of INTO and @v := expr) or end in the same error class. non-trivial = has a string/quoted identifier needing an escape or parenthesis depth >= 3; distinct by the first 14 token kinds, escape flag, depth bucket, mode, evaluation class",
 		Assumptions: []string{
-			"evaluation is compared only for texts whose functions are deterministic and free of side effects (no NOW, RAND, CALL, URL, STDIN, FILE::/INLINE::/URL::, @#UPTIME); others are checked for print/parse/print only (class eval:not_evaluated)",
+			"evaluation is compared only for texts whose functions are deterministic and confined (no NOW, RAND, CALL, URL, STDIN, URL::, @#UPTIME; FILE::/INLINE:: only with a literal file name inside the fixture directory); others are checked for print/parse/print only (class eval:not_evaluated)",
 			"error classes are csvq's error code/number pairs; messages and positions are not compared",
 			"shapes behind avoidKnown* constants (reported defects) are not generated while the constant is true",
 		},
